@@ -261,11 +261,13 @@ class RPCReplyListener(SessionListener): # internal use
                     del self._id2rpc[id]
 
     def errback(self, err):
-        try:
-            for rpc in self._id2rpc.values():
-                rpc.deliver_error(err)
-        finally:
+        # take the pending requests under the lock: a request being registered
+        # concurrently must not invalidate the iteration (and so leave others unfailed)
+        with self._lock:
+            rpcs = list(self._id2rpc.values())
             self._id2rpc.clear()
+        for rpc in rpcs:
+            rpc.deliver_error(err)
 
 
 class RaiseMode:
